@@ -136,15 +136,25 @@ type Result struct {
 	Extra         map[string]any    `json:"extra,omitempty"`
 	Notes         []string          `json:"notes,omitempty"`
 	WallS         float64           `json:"wall_s"`
+	NViolations   int               `json:"n_violations"`
+	perVerb       map[string]int
 	mu            sync.Mutex
 }
 
 func (res *Result) AddViolation(v Violation) {
 	res.mu.Lock()
 	defer res.mu.Unlock()
-	if len(res.Violations) < 50 {
-		res.Violations = append(res.Violations, v)
+	res.NViolations++
+	// keep a diverse sample: at most 8 per verb (first token of the case), 60 in total
+	verb := strings.SplitN(v.Case, " ", 2)[0]
+	if res.perVerb == nil {
+		res.perVerb = map[string]int{}
 	}
+	if res.perVerb[verb] >= 8 || len(res.Violations) >= 60 {
+		return
+	}
+	res.perVerb[verb]++
+	res.Violations = append(res.Violations, v)
 }
 func (res *Result) Count(k string, n int) {
 	res.mu.Lock()
